@@ -191,8 +191,22 @@ class Scenario:
         return []
 
     def check_state(self, world):
-        """expensive state-only probes, run once per expanded state"""
+        """expensive state-only probes, run once per expanded state (may
+        disturb the world: it is rebuilt afterwards)"""
         return []
+
+    def state_summary(self, world):
+        """optional (key, value) pair, read right after check_state on the
+        same world: all states with one key must have one value (differential
+        oracle); None to opt out"""
+        return None
+
+    def summary_signature(self, key, v1, v2):
+        return "summary-conflict"
+
+    def state_stats(self, world):
+        """counter names for this (probed) state"""
+        return ()
 
     def prefix_ok(self, op):
         return True
@@ -249,24 +263,29 @@ def _set_scenario(s, prop="?"):
 def _expand(task):
     """Worker: expand one state.  Returns (init, history, results, counters)
     results: list of (op, fp, prefix_ok, violations)"""
-    init, history, check_self = task
+    init, history, check_self, do_expand = task
     sc = _SCEN
     counters = collections.Counter()
     out = []
     base = sc.materialise(init, history)
     self_viol = []
-    self_fp = None
+    self_fp = sc.fingerprint(base)
+    summary = None
     if check_self:
-        self_fp = sc.fingerprint(base)
         self_viol = sc.check(base)
     try:
         self_viol = list(self_viol) + list(sc.check_state(base))
+        summary = sc.state_summary(base)
     except Exception as e:  # noqa
         import traceback
 
         self_viol = list(self_viol) + [
             ("harness-error:check_state:" + type(e).__name__,
              traceback.format_exc()[-600:])]
+    for c in sc.state_stats(base):
+        counters[c] += 1
+    if not do_expand:
+        return init, history, self_fp, _cap(self_viol), out, counters, summary
     base = sc.materialise(init, history)
     ops = sc.ops(base)
     for op in ops:
@@ -292,7 +311,7 @@ def _expand(task):
             counters[c] += 1
         counters["op:" + str(op[0])] += 1
         out.append((op, fp, sc.prefix_ok(op) and not v, _cap(v)))
-    return init, history, self_fp, _cap(self_viol), out, counters
+    return init, history, self_fp, _cap(self_viol), out, counters, summary
 
 
 def reproduce(sc, init, history, op, signature, times=3):
@@ -305,14 +324,18 @@ def reproduce(sc, init, history, op, signature, times=3):
             if op is not None:
                 v = list(sc.apply(w, op))
             v += sc.check(w)
+            if op is None:
+                v += sc.check_state(w)
         except Exception as e:  # noqa
             v = [("harness-error:" + type(e).__name__, "")]
+        v = _cap(v, 1000)
         if any(s == signature for s, _ in v):
             hits += 1
     return hits
 
 
-def explore(ctx, sc, max_depth=None, state_cap=None, label=None):
+def explore(ctx, sc, max_depth=None, state_cap=None, label=None,
+            probe_leaves=False):
     """Level-synchronous BFS.  Returns coverage dict."""
     _set_scenario(sc, ctx.prop)
     common.close_pool()  # workers must see the scenario (fork after set)
@@ -327,8 +350,10 @@ def explore(ctx, sc, max_depth=None, state_cap=None, label=None):
     other_prop_viol = collections.Counter()
     complete = True
 
+    summaries = {}
+    summary_conflicts = {}
     inits = list(sc.initial_states())
-    tasks = [(i, [], True) for i in inits]
+    tasks = [(i, [], True, True) for i in inits]
     depth = 0
     level_tasks = tasks
     while level_tasks:
@@ -339,9 +364,16 @@ def explore(ctx, sc, max_depth=None, state_cap=None, label=None):
         next_frontier = []
         aborted = False
         n_done = 0
-        for init, history, self_fp, self_viol, results, cnt in common.pmap(
-            _expand, level_tasks
-        ):
+        for (init, history, self_fp, self_viol, results, cnt,
+             summary) in common.pmap(_expand, level_tasks):
+            if summary is not None:
+                skey, sval = summary
+                slot = summaries.setdefault(skey, {})
+                ent = slot.setdefault(sval, [init, history, set()])
+                if len(ent[2]) < 3:
+                    ent[2].add(self_fp)
+                if len(slot) > 1 and skey not in summary_conflicts:
+                    summary_conflicts[skey] = True
             n_done += 1
             counters.update(cnt)
             if self_fp is not None and self_fp not in seen:
@@ -369,7 +401,7 @@ def explore(ctx, sc, max_depth=None, state_cap=None, label=None):
                 if fp not in seen:
                     if pfx:
                         seen[fp] = (init, history + [op])
-                        next_frontier.append((init, history + [op], False))
+                        next_frontier.append((init, history + [op], False, True))
                         if len(samples) < 8 and len(history) >= 1:
                             samples.append(
                                 {"init": init, "history": history + [op]}
@@ -397,6 +429,34 @@ def explore(ctx, sc, max_depth=None, state_cap=None, label=None):
         level_tasks = next_frontier
         if max_depth is not None and depth > max_depth and level_tasks:
             complete = False
+            if probe_leaves:
+                # states at the depth bound: probe them, do not expand
+                leaf_tasks = [(i, h, False, False) for i, h, _, _ in level_tasks]
+                n_leaf = 0
+                for (init, history, self_fp, self_viol, results, cnt,
+                     summary) in common.pmap(_expand, leaf_tasks):
+                    n_leaf += 1
+                    counters.update(cnt)
+                    if summary is not None:
+                        skey, sval = summary
+                        slot = summaries.setdefault(skey, {})
+                        ent = slot.setdefault(sval, [init, history, set()])
+                        if len(ent[2]) < 3:
+                            ent[2].add(self_fp)
+                    for sig, detail in self_viol:
+                        if not sig.startswith(ctx.prop + "/"):
+                            other_prop_viol[sig.split("/")[0]] += 1
+                            continue
+                        old = pending_viol.get(sig)
+                        if old is None or len(old[1]) > len(history):
+                            pending_viol[sig] = (init, history, None, detail)
+                    if ctx.out_of_time(0.95):
+                        break
+                levels.append({"depth": depth, "probed_only": n_leaf,
+                               "of": len(leaf_tasks),
+                               "complete": n_leaf == len(leaf_tasks)})
+                if n_leaf < len(leaf_tasks):
+                    common.close_pool()
             break
 
     # determinism gate + report
@@ -417,6 +477,27 @@ def explore(ctx, sc, max_depth=None, state_cap=None, label=None):
             continue
         ctx.violation(sig, payload)
 
+    # differential oracle: one value per summary key
+    n_multi = 0
+    for skey, slot in summaries.items():
+        fps = set()
+        for ent in slot.values():
+            fps |= ent[2]
+        if len(fps) > 1:
+            n_multi += 1
+        if len(slot) > 1:
+            (v1, e1), (v2, e2) = sorted(
+                slot.items(), key=lambda kv: len(kv[1][1]))[:2]
+            sig = ctx.prop + "/" + sc.summary_signature(skey, v1, v2)
+            if sig.startswith(ctx.prop + "/"):
+                ctx.violation(sig, {
+                    "scenario": label or sc.name, "kind": "summary-conflict",
+                    "init": e1[0], "history": e1[1], "op": None,
+                    "init2": e2[0], "history2": e2[1],
+                    "detail": "two states with the same public structure "
+                    "answer differently",
+                })
+
     fixpoint = complete and not level_tasks
     cov = {
         "scenario": label or sc.name,
@@ -435,4 +516,7 @@ def explore(ctx, sc, max_depth=None, state_cap=None, label=None):
         "samples": samples,
         "violations_of_other_properties_seen": dict(other_prop_viol),
     }
+    if summaries:
+        cov["summary_keys"] = len(summaries)
+        cov["summary_keys_reached_by_several_hidden_states"] = n_multi
     return cov
